@@ -22,6 +22,10 @@ def build(model, args):
         from nucs.problems.latin_square_problem import LatinSquareProblem
 
         return LatinSquareProblem(list(range(args[0])))
+    elif model == "latin_givens":
+        from nucs.problems.latin_square_problem import LatinSquareProblem
+
+        return LatinSquareProblem(list(args[0]), [list(r) for r in args[1]])
     elif model == "latin_square_rc":
         from nucs.problems.latin_square_problem import LatinSquareRCProblem as C
     elif model == "qg5":
@@ -104,6 +108,8 @@ def validator(model, args):
         return lambda s: M.v_queens(s, args[0])
     if model == "latin_square":
         return lambda s: M.v_latin_square(s, list(range(args[0])))
+    if model == "latin_givens":
+        return lambda s: M.v_latin_square(s, list(args[0])) or _givens_kept(s, args[0], args[1])
     if model == "latin_square_rc":
         return lambda s: M.v_latin_rc(s, args[0])
     if model == "qg5":
@@ -135,6 +141,36 @@ def validator(model, args):
     raise ValueError(model)
 
 
+def _givens_kept(sol, colors, givens):
+    """None when every given cell (a value that is one of the colours) holds its given, else a description."""
+    n = len(colors)
+    for i in range(n):
+        for j in range(n):
+            g = givens[i][j]
+            if g in colors and int(sol[i * n + j]) != g:
+                return "cell (%d,%d) holds %d, the given is %d" % (i, j, int(sol[i * n + j]), g)
+    return None
+
+
+def count_latin_givens(colors, givens):
+    """Latin squares over the colours that agree with the givens, row by row over the permutations of the colours."""
+    from itertools import permutations
+
+    n = len(colors)
+    rows = [[p for p in permutations(colors) if all(givens[i][j] not in colors or p[j] == givens[i][j] for j in range(n))] for i in range(n)]
+
+    def rec(i, used):
+        if i == n:
+            return 1
+        t = 0
+        for p in rows[i]:
+            if all(p[j] not in used[j] for j in range(n)):
+                t += rec(i + 1, [used[j] | {p[j]} for j in range(n)])
+        return t
+
+    return rec(0, [frozenset() for _ in range(n)])
+
+
 @lru_cache(maxsize=None)
 def _cached(fn, *a):
     return getattr(M, fn)(*a)
@@ -146,6 +182,8 @@ def expected(model, args):
         return ("count", M.QUEENS[args[0]])
     if model in ("latin_square", "latin_square_rc"):
         return ("count", M.LATIN[args[0]])
+    if model == "latin_givens":
+        return ("count", count_latin_givens(list(args[0]), [list(r) for r in args[1]]))
     if model == "qg5":
         n, sym = args
         if sym:
@@ -294,6 +332,8 @@ def instances(tier, interpreted):
         add("latin_square", [n], ["count"])
         add("latin_square_rc", [n], ["count"])
     add("latin_square", [4], ["count"], heavy=True)
+    for _ in range(4):
+        add("latin_givens", None, ["count"])  # colours and givens are drawn (c20_case)
     add("latin_square_rc", [4], ["count"], heavy=True)
     for n in (3, 4, 5):
         for sym in (True, False):
@@ -378,6 +418,23 @@ def c20_case(draw, tier, interpreted):
         args = [mat]
         if draw(st.booleans()):
             cfg["var"], cfg["dom"] = "max_regret", "min_cost"
+    if model == "latin_givens":
+        # a latin square over colours base..base+n-1 (0-based, 1-based as in sudoku, negative, elsewhere) with some cells given;
+        # "any value different from the possible colors is used as a wildcard"
+        n = draw(st.integers(2, 4))
+        base = draw(st.sampled_from([0, 0, 0, 1, -2, 5]))
+        colors = list(range(base, base + n))
+        wild = draw(st.sampled_from([w for w in (0, -1, base - 1, base + n, 99) if w not in colors]))
+        pi, sigma = draw(st.permutations(list(range(n)))), draw(st.permutations(list(range(n))))
+        givens = []
+        for i in range(n):
+            row = []
+            for j in range(n):
+                k = draw(st.integers(0, 9))
+                # mostly cells of one latin square (satisfiable), sometimes an arbitrary colour
+                row.append(colors[(pi[i] + sigma[j]) % n] if k < 4 else draw(st.sampled_from(colors)) if k == 4 else wild)
+            givens.append(row)
+        args = [colors, givens]
     if model == "knapsack" and draw(st.integers(0, 2)) > 0:
         n = draw(st.integers(2, 7 if tier == "quick" else 10))
         weights = [draw(st.integers(1, 30)) for _ in range(n)]
@@ -399,7 +456,7 @@ def c20_case(draw, tier, interpreted):
 
 META = {
     "level": "exploration",
-    "rule": "cases = shipped model (queens, latin square, latin square RC, quasigroup QG5, magic square, magic sequence, Golomb incl. its own consistency algorithm, BIBD, Schur, sports tournament scheduling, knapsack, circuit, TSP on generated "
+    "rule": "cases = shipped model (queens, latin square with and without given cells over 0-based / 1-based / other colours, latin square RC, quasigroup QG5, magic square, magic sequence, Golomb incl. its own consistency algorithm, BIBD, Schur, sports tournament scheduling, knapsack, circuit, TSP on generated "
     "matrices, sudoku, alpha, donald) x instance size within reach x symmetry breaking on/off x configuration (BC / shaving / Golomb's algorithm, variable and value heuristics, 1..3 workers over split()) x what is asked "
     "(all solutions / first solution / optimum); oracle = definition-level validators written from the problem statements, counts and optima from the literature or from independent brute force; "
     "non-trivial = instance with >= 1 solution returned, or proven empty with >= 1 backtrack; distinct by SHA-1 of the canonical case",
